@@ -191,8 +191,6 @@ class Inliner:
 
     def _eligible(self, node: ast.FunctionDef) -> bool:
         a = node.args
-        if a.vararg or a.kwarg:
-            return False
         body = _body_wo_doc(node)
         if len(list(ast.walk(node))) > 900 or len(body) > MAX_STMTS:
             return False
@@ -228,14 +226,29 @@ class Inliner:
             params_rest = params[1:]
         else:
             params_rest = params
-        if len(args) > len(params_rest):
+        npos = len([x for x in a.posonlyargs + a.args]) - (len(params) - len(a.kwonlyargs) - len(params_rest))
+        pos_rest = params_rest[:len(params_rest) - len(a.kwonlyargs)] if a.kwonlyargs else params_rest
+        if a.vararg is not None:
+            # f(x, "a", "b") against def f(x, *names): the surplus positional arguments are the tuple `names`
+            extra = args[len(pos_rest):]
+            args = args[:len(pos_rest)]
+            mapping[a.vararg.arg] = ast.Tuple(elts=list(extra), ctx=ast.Load())
+        if len(args) > len(pos_rest):
             return None
-        for p_, a_ in zip(params_rest, args):
+        for p_, a_ in zip(pos_rest, args):
             mapping[p_] = a_
+        surplus = []
         for k in call.keywords:
-            if k.arg not in params_rest or k.arg in mapping:
+            if k.arg in mapping:
                 return None
+            if k.arg not in params_rest:
+                if a.kwarg is None:
+                    return None
+                surplus.append(k)       # f(x=1, y=2) against def f(**kw): the dict `kw`
+                continue
             mapping[k.arg] = k.value
+        if a.kwarg is not None:
+            mapping[a.kwarg.arg] = ast.Dict(keys=[ast.Constant(value=k.arg) for k in surplus], values=[k.value for k in surplus])
         for p_ in params_rest:
             if p_ not in mapping:
                 if p_ not in defaults:
